@@ -202,7 +202,7 @@ func c08(c *Ctx) {
 	r.Technique = "value-flow analysis store -> reply in the FINDCONTENT handler; writer/reader agreement of the selector table; numeric packet-budget check on folded constants; structural check of the truncation loop, of the ordering comparator and of the requester exclusion"
 	r.Explanation = "Decides: (R1) the Content field of the inline reply and the argument of the uTP frame encoder in the spawned writer are the very value storage.Get returned for the requested key; each reply branch uses the selector byte the asking side's decoder associates with that message type; the connection id announced is the Send id of the connection the writer goroutine accepts on; (R2) the inline branch is taken only under len(content) <= K with K <= 1280-103-2 and the ENR budgets passed to the truncation are <= 1175 (CONTENT) and <= 1171 (NODES) with per-record overhead 4 = the SSZ offset size; the truncation loop adds a record only if total+len+overhead fits, accounts len+overhead per record and stops at the first misfit (prefix); (R3) the closer-peers list comes from the routing table, is sorted by LogDist(a, id) < LogDist(b, id) against the content id, the requester's record is compared against and removed before truncation; (R4) on the asking side the id dialled is the one decoded from the reply and the bytes returned are the result of the version-dependent frame decoder applied to what was read (encoder/decoder symmetry itself is C19.R2 and C15). Not decided: byte equality end to end, actual datagram sizes (the 103-byte TALKRESP framing is an assumption about the discv5 dependency taken from the repository's own itemisation), loss/reordering."
 	r.Assumptions = []string{"discv5 maximum packet size 1280 and TALKRESP framing overhead 103 bytes", "SSZ list offsets are 4 bytes", "sort.Slice sorts by the comparator"}
-	r.Floor("R1.value-flow", 3)
+	r.Floor("R1.value-flow", 4)
 	r.Floor("R1.selectors", 3)
 	r.Floor("R2.budget", 3)
 	r.Floor("R2.truncation", 3)
@@ -470,6 +470,25 @@ func c08(c *Ctx) {
 	if candCall == nil {
 		r.Fail("R3.order-exclusion", hname+" candidates", p.Pos(H.Pos()), "closer-peers query not found")
 	} else {
+		// the closer-peers answer is given only when the store reported not-found: a held key
+		// (whatever its value, the empty value included) is answered with its content
+		notFound := core.AnyFact(func(f core.Fact) bool {
+			if f.Op != token.ILLEGAL || !f.Truth {
+				return false
+			}
+			cc, ok := f.V.(*ssa.Call)
+			if !ok || core.CalleeID(cc) != "errors.Is" || len(cc.Call.Args) != 2 {
+				return false
+			}
+			g, isG := core.Unwrap(cc.Call.Args[1]).(*ssa.UnOp)
+			if !isG {
+				return false
+			}
+			gl, isGl := g.X.(*ssa.Global)
+			return isGl && strings.Contains(gl.Name(), "NotFound")
+		})
+		wnf := core.InstrGuarded(candCall, notFound, nil)
+		r.Check(wnf == nil, "R1.value-flow", hname+" peers-only-when-not-found", p.Pos(candCall.Pos()), "the closer-peers reply is built only on the store's not-found error", "a held key can be answered with closer peers instead of its stored bytes (the not-found branch is reachable without the store's not-found error): "+p.PathString(wnf))
 		cf := core.StaticCalleeFn(candCall)
 		cname := core.FuncName(cf)
 		// from the routing table
